@@ -88,3 +88,43 @@ def then_before_ok(ctx, fn, a_pat, b_pat, rule, what, from_entry=False):
         ctx.violation(rule, fn.id, what,
                       "a path from /%s/ reaches a successful return without passing through /%s/" % (a_pat, b_pat),
                       fn.file, fn.line)
+
+
+# ------------------------------------------------------------------ R-SEQ
+import re as _re
+
+UNORDERED = _re.compile(r"buffer_unordered|FuturesUnordered|for_each_concurrent|select_all$|select_ok$|JoinSet<[^>]*>::join_next|"
+                        r"try_buffer_unordered|try_for_each_concurrent")
+
+
+def sequence_order(ctx, fx, files, rule="R-SEQ"):
+    """an API whose body returns Vec<_> / Result<Vec<_>> with one element per input must not assemble it with a
+    completion-ordered combinator: the element order would then depend on the schedule. Nested closure and
+    coroutine bodies are searched with the API they belong to."""
+    n = 0
+    allids = [fid for f in files for fid in fx.fn_ids(f) if "::tests::" not in fid]
+    for fid in allids:
+        for k in range(fx.count(fid)):
+            fn = Fn(fx.raw(fid, k))
+            rt = fn.ty(0)
+            if not _re.search(r"^(std::result::Result<)?std::vec::Vec<", rt):
+                continue
+            n += 1
+            ctx.analysed_fns.add(fid)
+            bad = None
+            bodies = [fid] + [x for x in allids if x.startswith(fid + "::{")]
+            for bid in bodies:
+                for kk in range(fx.count(bid)):
+                    bf = fn if bid == fid and kk == k else Fn(fx.raw(bid, kk))
+                    for b, c in bf.calls():
+                        if UNORDERED.search(c["f"]) or UNORDERED.search(c.get("st") or ""):
+                            bad = (c["f"], c["ln"], bf.file)
+            ctx.obligation(rule, fid, "no completion-ordered combinator", bad is None,
+                           sample={"fn": fid, "returns": rt[:80], "bodies_searched": len(bodies)})
+            if bad:
+                ctx.violation(rule, fid, "sequence assembled with %s" % bad[0].rsplit("::", 1)[-1],
+                              "%s returns %s but collects through %s (line %d): elements arrive in completion order, so "
+                              "a slow item shifts every later result to an earlier index" % (fid.rsplit("::{", 1)[0].rsplit("::", 1)[-1], rt[:60], bad[0], bad[1]),
+                              bad[2], bad[1])
+    ctx.instance(rule + ".sequence_apis", n)
+    return n
